@@ -215,6 +215,15 @@ def check_rewire(case):
             ref[tuple(ins) + tuple(outs)] += U[ins[a], ins[b], o0, o1]
     same(lib_matrix(out, n), ref.reshape(2 ** n, 2 ** n),
          "rewire", "rewire({}, {}, {}, n={})".format(op, a, b, n))
+    if len(op_spec["layers"]) == 1 and len(op.boxes[0].dom) == 2:
+        # the gate itself (a box, as in rewire(CX, 2, 0)), not the one-box
+        # circuit around it
+        gate = op.boxes[0]
+        bare = rewire(gate, a, b, dom=qubit ** n) if case["explicit_dom"]\
+            else rewire(gate, a, b)
+        specs.well_typed(bare, "rewire")
+        same(lib_matrix(bare, n), ref.reshape(2 ** n, 2 ** n), "rewire",
+             "rewire({!r}, {}, {}, n={})".format(gate, a, b, n))
     return dict(nt=abs(a - b) != 1 or a > b, labels=[
         "adjacent" if abs(a - b) == 1 else "distant",
         "reversed" if a > b else "ordered"],
